@@ -109,10 +109,16 @@ CLAIMS = {
              "IsPreprocessorStatement.run are translated from the source; the header followed by ANY text is lexed into one "
              "MULT_COMMENT token per template line, the first 11 turns of the registry loop are IsComment matches on which "
              "CheckHeader runs, and no INVALID_HEADER is emitted at any later turn (C13_file_accept; hypothesis: the engine oracle "
-             "agrees with the token-level turn where the translated primaries decide it - compared on every run).  Recorded "
+             "agrees with the token-level turn where the translated primaries decide it - compared on every run).  The REJECT "
+             "direction is proved at file level too (text -> tokenizer model -> turns -> generated machine) for Hm1, Hm2, Hm3, "
+             "Hm4, Hm6, Hm7 and Hm8, for any following text that begins with an empty line or whose first item is a token and "
+             "that does not begin with /*, under the same oracle hypothesis and the hypothesis that the statement after the "
+             "leading comments is recognised (C13_file_reject_*); Hm5, a following column-1 block comment and a first item that "
+             "is not a token remain trace-level with file->trace compared on every run.  Recorded "
              "findings are refuted by witness.  Correspondence: the generated state machine replayed in Coq "
              "on events recorded from CheckHeader.run, the regex model vs the source's compiled pattern, the template vs the "
-             "repository's sample header; search: field sets x mutations x bodies on the implementation.",
+             "repository's sample header; search: field sets x mutations x bodies on the implementation, several-file runs in "
+             "twelve orders (each count as for the file alone) and the inline --cfile/--hfile route.",
         ref="DESIGN.md 4.13", technique="Rocq proof (verified regex matcher, counting lemmas, state machine translated from source) + event/regex correspondence + mutation search",
         note=NOTE + "Proved for fields forming no di/trigraph and holding no backslash, ?, tab: the lexer cuts the header followed by ANY "
              "text into one MULT_COMMENT token per template line (C13_header_lexed). Tested, not proved: that IsComment matches "
